@@ -1,34 +1,64 @@
 package main
 
 import (
-	"context"
 	"fmt"
-	"time"
 
-	"github.com/prometheus/prometheus/promql"
-
-	"verif/harness/core"
-	"verif/harness/gen"
+	"github.com/thanos-community/promql-engine/verifshim"
 )
 
 func main() {
-	st, _ := core.BuildStore([]core.SeriesSpec{
-		gen.Regular(`a{l="0",m="0"}`, 0, 30000, 10, 1, 1), gen.Regular(`a{l="0",m="1"}`, 0, 30000, 10, 10, 2), gen.Regular(`a{l="1"}`, 0, 30000, 10, 100, 0.5)})
-	eng := promql.NewEngine(promql.EngineOpts{MaxSamples: 1e7, Timeout: time.Minute})
-	run := func() (*promql.Result, promql.Query) {
-		q, err := eng.NewRangeQuery(st, nil, `count_values("v", a)`, time.UnixMilli(10000), time.UnixMilli(340000), 30*time.Second)
-		if err != nil {
-			panic(err)
+	verifshim.SetControlled(true)
+	outcomes := map[string]int{}
+	var explore func(devs map[int]int, from int, depth int)
+	execs := 0
+	explore = func(devs map[int]int, from int, depth int) {
+		var got []int
+		ch := make(chan int)
+		done := make(chan struct{})
+		res := verifshim.Run(verifshim.RunOpts{Devs: devs, EventStep: -1}, func() {
+			for p := 0; p < 2; p++ {
+				p := p
+				verifshim.Go(func() {
+					verifshim.Send(ch, 10+p)
+					verifshim.Send(ch, 20+p)
+				})
+			}
+			verifshim.Go(func() {
+				for i := 0; i < 4; i++ {
+					c0 := verifshim.RecvCase(ch)
+					c1 := verifshim.RecvCase(done)
+					switch verifshim.Select(false, c0, c1) {
+					case 0:
+						got = append(got, c0.Val)
+					}
+				}
+				verifshim.Close(done)
+			})
+			verifshim.Recv(done)
+		})
+		execs++
+		outcomes[fmt.Sprint(got, res.Deadlock, res.Blocked, res.Unsupp)]++
+		if depth == 0 {
+			return
 		}
-		return q.Exec(context.Background()), q
+		for i := from; i < len(res.Trace); i++ {
+			for alt := 1; alt < int(res.Trace[i].NAlt); alt++ {
+				d := map[int]int{}
+				for k, v := range devs {
+					d[k] = v
+				}
+				d[i] = alt
+				explore(d, i+1, depth-1)
+			}
+		}
 	}
-	r1, q1 := run()
-	s1 := core.Canon(r1).String()
-	r2, q2 := run()
-	s1b := core.Canon(r1).String()
-	fmt.Println("first result unchanged after a second query (both open):", s1 == s1b)
-	fmt.Println("second equals first:", core.Canon(r2).String() == s1)
-	q1.Close()
-	q2.Close()
-	_ = q2
+	explore(map[int]int{}, 0, 3)
+	fmt.Println("executions", execs)
+	for k, v := range outcomes {
+		fmt.Println(v, k)
+	}
+	// a deadlock: send with no receiver
+	ch := make(chan int)
+	res := verifshim.Run(verifshim.RunOpts{EventStep: -1}, func() { verifshim.Send(ch, 1) })
+	fmt.Println("deadlock detected:", res.Deadlock, res.BlockedOps)
 }
